@@ -334,15 +334,21 @@ def check_cosetfold(res, facts):
     from rules.c07 import norm
     E = lambda f_, o_: norm(DF.expr(f_, o_, depth=40, mut_as_phi=True))
     sites = []
-    for bb, t in fn.calls():
-        if t["f"].get("name") != "for_each":
-            continue
-        env = E(fn, t["args"][1])
-        if not (isinstance(env, tuple) and env[0] == "agg" and len(env[2]) == 1):
-            continue
-        src = E(fn, t["args"][0])
-        arm = "owned" if "chunks_mut" in show(src) else "borrowed"
-        sites.append((bb, arm, env[2][0], t))
+    hosts = [(fn, None, None)] + [(c, t_, {j + 1: E(fn, a) for j, a in enumerate(t_["args"])}) for _, t_, c in DF.local_callees(facts, fn)]
+    for host, call_t, amap in hosts:
+        for bb, t in host.calls():
+            if t["f"].get("name") != "for_each":
+                continue
+            env = E(host, t["args"][1])
+            if not (isinstance(env, tuple) and env[0] == "agg" and len(env[2]) == 1):
+                continue
+            src = E(host, t["args"][0])
+            mult = env[2][0]
+            if amap is not None:
+                src = DF.subst_args(src, amap)
+                mult = norm(DF.subst_args(mult, amap))
+            arm = "owned" if "chunks_mut" in show(src) else "borrowed"
+            sites.append((bb, arm, mult, t, host))
     if len(sites) != 2:
         rule.bad("ark_poly|eval_over_domain_helper", "expected two scaled folds (borrowed and owned arm), found %d" % len(sites), fn.loc)
         return
@@ -362,12 +368,12 @@ def check_cosetfold(res, facts):
         if t == C("coset_offset_pow_size", A(2)):
             return offset, e * Q.var("n")
         return t, e
-    for bb, arm, mult, t in sites:
+    for bb, arm, mult, t, host in sites:
         key = "ark_poly|eval_over_domain_helper|%s" % arm
         # the closure multiplies the chunk element by its capture
         ok_clo = False
-        for cid in closure_args(fn, t):
-            clo = facts.get(cid, fn.unit)
+        for cid in closure_args(host, t):
+            clo = facts.get(cid, host.unit)
             if clo is None:
                 continue
             calls = [(ct["f"].get("name"), [E(clo, a) for a in ct["args"]]) for _, ct in clo.calls()]
